@@ -479,6 +479,8 @@ class BitArray(Bits):
 
     def _ror_msb0(self, bits: int, start: Optional[int] = None, end: Optional[int] = None) -> None:
         start, end = self._validate_slice(start, end)  # the _slice deals with msb0/lsb0
+        if start == end:
+            return
         bits %= (end - start)
         if not bits:
             return
